@@ -418,6 +418,18 @@ func (e *Exec) mustConcreteString(v Value, what string) string {
 // selectTree builds ts[idx] as a binary decision tree over the low bits of idx.
 // Equal subtrees collapse through hash-consing, so sparse constant tables stay small.
 func (e *Exec) selectTree(idx *Term, ts []*Term) *Term {
+	// small index ranges: equality chain (cheap for the integer back end);
+	// the range is bounded by a syntactic upper bound of the index
+	if ub := upperBound(idx); ub < uint64(len(ts)-1) {
+		ts = ts[:ub+1]
+	}
+	if len(ts) <= 64 {
+		res := ts[len(ts)-1]
+		for i := len(ts) - 2; i >= 0; i-- {
+			res = e.tb.Ite(e.tb.Eq(idx, e.tb.Const(idx.w, uint64(i))), ts[i], res)
+		}
+		return res
+	}
 	n := len(ts)
 	k := 0
 	for (1 << uint(k)) < n {
@@ -440,4 +452,43 @@ func (e *Exec) selectTree(idx *Term, ts []*Term) *Term {
 		return e.tb.Ite(b, hi, lo)
 	}
 	return build(k-1, 0)
+}
+
+// upperBound: a cheap syntactic upper bound of an unsigned term.
+func upperBound(t *Term) uint64 {
+	switch t.op {
+	case OpConst:
+		return t.val
+	case OpZExt:
+		return upperBound(t.args[0])
+	case OpBAnd:
+		a, b := upperBound(t.args[0]), upperBound(t.args[1])
+		if a < b {
+			return a
+		}
+		return b
+	case OpAdd:
+		a, b := upperBound(t.args[0]), upperBound(t.args[1])
+		if a+b >= a && (t.w >= 64 || a+b <= mask(t.w)) {
+			return a + b
+		}
+	case OpIte:
+		a, b := upperBound(t.args[1]), upperBound(t.args[2])
+		if a > b {
+			return a
+		}
+		return b
+	case OpURem:
+		if t.args[1].IsConst() && t.args[1].val > 0 {
+			return t.args[1].val - 1
+		}
+	case OpLShr:
+		if t.args[1].IsConst() && t.args[1].val < 64 {
+			return upperBound(t.args[0]) >> t.args[1].val
+		}
+	}
+	if t.w >= 64 {
+		return ^uint64(0)
+	}
+	return mask(t.w)
 }
